@@ -80,6 +80,12 @@ type Op struct {
 	// Seed) one after the other: a big indexing batch.
 	N    int    `json:"n,omitempty"`
 	Seed uint64 `json:"seed,omitempty"`
+	// restart: IterFault > 0 makes the first scan of the "deleted|" rows
+	// made while the index is re-opened stop after IterFault-1 rows and
+	// report a read error when the iterator is closed (sorted.Iterator has no
+	// other way to report one). The open must fail (and is then repeated
+	// without the fault) or be complete; it must not succeed on a partial scan.
+	IterFault int `json:"iterFault,omitempty"`
 }
 
 func (o Op) barrier() bool { return o.K != "deliver" && o.K != "bulk" }
@@ -185,8 +191,10 @@ type session struct {
 	fillers map[string]bool
 	// faultKV: the index rows are wrapped in a store whose CommitBatch can
 	// be made to fail; failHave: "have:<ref>" keys whose batch fails once
-	faultKV   bool
-	failHave  map[string]bool
+	faultKV  bool
+	failHave map[string]bool
+	// failFind > 0: see Op.IterFault (armed for one Find)
+	failFind  int
 	stallMiss time.Duration
 	nstall    int
 }
@@ -214,6 +222,69 @@ func (b *faultBatch) Set(k, v string) {
 func (b *faultBatch) Delete(k string) {
 	b.keys = append(b.keys, k)
 	b.BatchMutation.Delete(k)
+}
+
+// errScan is the injected read failure of a range scan.
+var errScan = fmt.Errorf("%w: index rows: read error during a range scan", sim.ErrInjected)
+
+type cutIter struct {
+	sorted.Iterator
+	left int
+	cut  bool
+}
+
+func (c *cutIter) Next() bool {
+	if c.left <= 0 {
+		c.cut = true
+		return false
+	}
+	c.left--
+	return c.Iterator.Next()
+}
+
+func (c *cutIter) Close() error {
+	c.Iterator.Close()
+	return errScan
+}
+
+func (kv faultKV) Find(start, end string) sorted.Iterator {
+	it := kv.KeyValue.Find(start, end)
+	kv.s.mu.Lock()
+	n := kv.s.failFind
+	if n > 0 && strings.HasPrefix(start, "deleted|") {
+		kv.s.failFind = 0
+		kv.s.reach["scan-read-error-injected"]++
+	} else {
+		n = 0
+	}
+	kv.s.mu.Unlock()
+	if n > 0 {
+		return &cutIter{Iterator: it, left: n - 1}
+	}
+	return it
+}
+
+// reopen is open() for a restart op: with an iterator fault armed, an open
+// that fails with the injected error is repeated without the fault.
+func (s *session) reopen(op Op) (refused bool, err error) {
+	if op.IterFault <= 0 {
+		return false, s.open()
+	}
+	was := s.faultKV
+	s.faultKV = true
+	s.mu.Lock()
+	s.failFind = op.IterFault
+	s.mu.Unlock()
+	err = s.open()
+	s.mu.Lock()
+	s.failFind = 0
+	s.mu.Unlock()
+	s.faultKV = was
+	if err != nil && errors.Is(err, sim.ErrInjected) {
+		s.reach["restart-refused-on-read-error"]++
+		return true, s.open()
+	}
+	return false, err
 }
 
 func (kv faultKV) BeginBatch() sorted.BatchMutation {
